@@ -3537,8 +3537,10 @@ class SEVM:
                                 "is assumed to have empty bytecode"
                             )
 
-                        account_code: Contract | ByteVec = (
-                            ex.code.get(account_alias) or ByteVec()
+                        # note: Contract.slice takes (start, size) whereas ByteVec.slice takes (start, stop),
+                        # so the empty code must be a Contract too
+                        account_code: Contract = ex.code.get(account_alias) or Contract(
+                            ByteVec()
                         )
                         codeslice: ByteVec = account_code.slice(offset, size)
                         state.set_mslice(loc, codeslice)
